@@ -8,6 +8,7 @@ import (
 	"fmt"
 	"os"
 	"path/filepath"
+	"sort"
 	"strings"
 	"sync"
 	"sync/atomic"
@@ -60,6 +61,16 @@ func c08Program(r *Run, g *G, id int, hostile bool) []string {
 		fmt.Sprintf("try:\n    math.sqrt(-1)\nexcept ValueError as _e:\n    _e.tag = %d", id),
 		fmt.Sprintf("try:\n    float(2 ** 2000)\nexcept OverflowError as _e:\n    _e.tag = %d", id),
 	}
+	// every global of every module implemented in Go whose value is a mutable container (os.environ, sys.path, ...): a program
+	// changes it in place; each context must have a container of its own
+	for _, cg := range c08ContainerGlobals() {
+		add("import " + cg.mod)
+		if cg.dict {
+			cands = append(cands, fmt.Sprintf("%s.%s['verif_%d'] = '%d'", cg.mod, cg.name, id, id))
+		} else {
+			cands = append(cands, fmt.Sprintf("%s.%s.append('verif_%d')", cg.mod, cg.name, id))
+		}
+	}
 	if hostile {
 		cands = append(cands, fmt.Sprintf("try:\n    list.foo = %d\nexcept TypeError:\n    pass", id), fmt.Sprintf("try:\n    int.x = %d\nexcept TypeError:\n    pass", id),
 			fmt.Sprintf("try:\n    KeyError.y = %d\nexcept TypeError:\n    pass", id))
@@ -98,7 +109,59 @@ def _caught(f, cls):
 		"(ERR1.filename, ERR1.lineno, ERR1.offset, ERR1.msg, ERR1.args)", "(ERR2.filename, ERR2.lineno, ERR2.offset, ERR2.msg)", "(ERR3.filename, ERR3.lineno, ERR3.msg, ERR1 is ERR3, ERR2 is ERR3)"} {
 		add("_see(lambda: " + e + ")")
 	}
+	for _, cg := range c08ContainerGlobals() {
+		if cg.dict {
+			add(fmt.Sprintf("_see(lambda: sorted([k for k in %s.%s.keys() if k[:6] == 'verif_']))", cg.mod, cg.name))
+		} else {
+			add(fmt.Sprintf("_see(lambda: [e for e in %s.%s if str(e)[:6] == 'verif_'])", cg.mod, cg.name))
+		}
+	}
 	return st
+}
+
+type c08ContainerGlobal struct {
+	mod, name string
+	dict      bool
+}
+
+var (
+	c08ContainersOnce sync.Once
+	c08Containers     []c08ContainerGlobal
+)
+
+// c08ContainerGlobals discovers, in a scratch context, the container-valued globals of the modules implemented in Go
+func c08ContainerGlobals() []c08ContainerGlobal {
+	c08ContainersOnce.Do(func() {
+		ctx, _ := NewCtx(nil, nil)
+		defer ctx.Close()
+		for _, name := range []string{"sys", "os", "math", "time", "string", "binascii", "array", "glob", "tempfile", "marshal"} {
+			if code, err := py.Compile("import "+name+"\n", "<probe>", py.ExecMode, 0, true); err == nil {
+				g := py.NewStringDict()
+				ctx.RunCode(code, g, g, nil)
+			}
+			m, err := ctx.GetModule(name)
+			if err != nil || m == nil {
+				continue
+			}
+			var keys []string
+			for k := range m.Globals {
+				keys = append(keys, k)
+			}
+			sort.Strings(keys)
+			for _, k := range keys {
+				if strings.HasPrefix(k, "__") || (name == "sys" && (k == "path" || k == "argv" || k == "modules")) {
+					continue
+				}
+				switch m.Globals[k].(type) {
+				case py.StringDict:
+					c08Containers = append(c08Containers, c08ContainerGlobal{name, k, true})
+				case *py.List:
+					c08Containers = append(c08Containers, c08ContainerGlobal{name, k, false})
+				}
+			}
+		}
+	})
+	return c08Containers
 }
 
 var c08ModSeq int
